@@ -28,7 +28,7 @@ def stable_key(name):
 
 def load_contracts(src):
     import contracts.streams, contracts.binary, contracts.classes, contracts.prims, contracts.oracles, contracts.tables, contracts.bitstream  # noqa
-    for mod in ('wrappers', 'adapters', 'transforms', 'delimited', 'intlemmas', 'conditionals', 'simple', 'bitregions', 'lazy', 'exprs', 'containers', 'codegen', 'ksy', 'lemmas', 'entry'):
+    for mod in ('wrappers', 'adapters', 'transforms', 'delimited', 'intlemmas', 'conditionals', 'simple', 'bitregions', 'equivlemmas', 'lazy', 'exprs', 'containers', 'codegen', 'ksy', 'lemmas', 'entry'):
         try:
             __import__('contracts.' + mod)
         except ModuleNotFoundError as e:
@@ -221,6 +221,7 @@ def run(pid, tier, seed, a, t0):
     if P.get('closure_tags'):
         done = set(fun_quals) if P.get('functional', True) else set()
         pending = {q for q in contract.USE_LOG if q in contract.REGISTRY and contract.REGISTRY[q].setup is not None and not contract.REGISTRY[q].generic} - done
+        pending |= {q for q in P.get('closure', ()) if q in contract.REGISTRY}       # contracts a lemma-level argument rests on, named explicitly
         while pending:
             contract.USE_LOG.clear()
             qs = sorted(pending)
